@@ -288,6 +288,7 @@ func isEarlyRet(c *CallSpec) (bool, int) {
 
 func addMetadataOps(g *rand.Rand, c *CallSpec) {
 	c.ReqMD = drawMD(g, 16)
+	c.AliasMD = g.IntN(4) == 0
 	hs, ts := map[string]string{}, map[string]string{}
 	drawH := func(n int) map[string][]string { return drawMDSpell(g, n, hs) }
 	drawT := func(n int) map[string][]string { return drawMDSpell(g, n, ts) }
@@ -623,7 +624,11 @@ func checkStreams(run *MixRun) {
 			e.Violate(prop, "client-recv-overrun", site, "call %d: RecvMsg kept returning messages (%d received, the handler sent %d)", id, len(r.CGot), r.HSent)
 		}
 		if readsAll(c.CProg) {
-			if len(r.CGot) != r.HSent {
+			// (a client-streaming RPC has one reply, and like grpc-go the client reports a
+			// failed RPC's status instead of it: the reply of a handler that then failed
+			// may or may not have been handed over)
+			replyOfFailedRPC := c.Kind == KCStream && c.HStatus != nil && len(r.CGot) == 0
+			if len(r.CGot) != r.HSent && !replyOfFailedRPC {
 				e.Violate(prop, "client-recv-count", site, "call %d: client received %d messages, handler sent %d (final=%v)", id, len(r.CGot), r.HSent, r.CFinal)
 			}
 			if !r.CFinalSet {
@@ -716,6 +721,13 @@ func checkStatus(run *MixRun) {
 		if got == nil {
 			e.Violate(prop, "success-on-failure", site, "call %d: handler returned %v, caller observed success", id, want)
 			continue
+		}
+		if c.Kind == KCStream && len(r.CGot) > 0 {
+			// A client-streaming call has one reply, and the generated stub's
+			// CloseAndRecv is one RecvMsg: if that RecvMsg hands back the reply with a
+			// nil error, the application is told the RPC succeeded (grpc-go's RecvMsg
+			// reads on to the status for exactly this reason)
+			e.Violate(prop, "success-on-failure", "cstream.first-recv", "call %d: the handler replied and then failed with %v; the caller's first RecvMsg returned the reply with a nil error, which is what CloseAndRecv reports", id, want)
 		}
 		gs, isStatus := status.FromError(got)
 		if !isStatus {
